@@ -135,7 +135,7 @@ type vhReq struct {
 	class        string // push | delete | read | other
 }
 
-var vhMethods = []string{"GET", "HEAD", "PUT", "POST", "PATCH", "DELETE", "OPTIONS", "BREW"}
+var vhMethods = []string{"PUT", "DELETE", "POST", "PATCH", "GET", "HEAD", "OPTIONS", "BREW"}
 
 var vhRepoNames = []string{"a", "b", "a/b", "zz", "index.json", "a/blobs", "x/oci-layout", "A", "a..b"}
 
